@@ -63,3 +63,17 @@ Fixpoint flat_of_cplx (l : list (cplx Qc_OF)) : list Qc :=
   match l with [] => [] | (a, b) :: t => a :: b :: flat_of_cplx t end.
 
 Definition nat_of (z : Z) : nat := Z.to_nat z.
+
+(* used by the per-run cross-check of the extracted driver against vm_compute *)
+Fixpoint qlist_eqb (a b : list Qc) : bool :=
+  match a, b with
+  | [], [] => true
+  | x :: s, y :: t => Qeq_bool (this x) (this y) && qlist_eqb s t
+  | _, _ => false
+  end.
+Definition res_eqb (a b : res) : bool :=
+  match a, b with
+  | Ok l, Ok l' => qlist_eqb l l'
+  | Err c, Err c' => Z.eqb c c'
+  | _, _ => false
+  end.
